@@ -4,7 +4,7 @@
 # because /repo has moved on from the pinned commit (fix: commits regenerate peg.peg.go).
 P=$(realpath "$1")
 [ -f "$P" ] || { echo "no such patch: $1"; exit 1; }
-cd /repo
+cd ${SEED_REPO:-/repo}
 if ! git apply --exclude=peg.peg.go "$P" 2>/dev/null; then
   git apply --3way --exclude=peg.peg.go "$P" >/dev/null 2>&1
   if [ -n "$(git diff --name-only --diff-filter=U)" ] || git diff | grep -q '^+<<<<<<<'; then
